@@ -12,6 +12,15 @@ static int len_cmp(const void *a, size_t la, const void *b, size_t lb) {
     if (la != lb) return la < lb ? -1 : 1;
     return qtreetbl_byte_cmp(a, la, b, lb);
 }
+/* case-insensitive ordering: byte-different keys can be equal (the stored key object is then the first one put) */
+static int ci_cmp(const void *a, size_t la, const void *b, size_t lb) {
+    const unsigned char *x = a, *y = b; size_t n = la < lb ? la : lb;
+    for (size_t i = 0; i < n; i++) {
+        int cx = (x[i] >= 'A' && x[i] <= 'Z') ? x[i] + 32 : x[i], cy = (y[i] >= 'A' && y[i] <= 'Z') ? y[i] + 32 : y[i];
+        if (cx != cy) return cx < cy ? -1 : 1;
+    }
+    return la == lb ? 0 : (la < lb ? -1 : 1);
+}
 static int counting_cmp(const void *a, size_t la, const void *b, size_t lb) { ncmp_calls++; return base_cmp(a, la, b, lb); }
 
 static void *dupbuf(const unsigned char *p, size_t n) { unsigned char *q = malloc(n ? n : 1); memcpy(q, p, n); return q; }
@@ -54,14 +63,14 @@ int main(void) {
         char op[32]; a1[0] = a2[0] = 0;
         sscanf(line, "%31s %s %s", op, a1, a2);
         if (!strcmp(op, "cmp") || !strcmp(op, "new")) {
-            if (!strcmp(op, "cmp")) base_cmp = !strcmp(a1, "rev") ? rev_cmp : !strcmp(a1, "len") ? len_cmp : qtreetbl_byte_cmp;
+            if (!strcmp(op, "cmp")) base_cmp = !strcmp(a1, "rev") ? rev_cmp : !strcmp(a1, "len") ? len_cmp : !strcmp(a1, "ci") ? ci_cmp : qtreetbl_byte_cmp;
             if (t && !dead) t->free(t);
             t = qtreetbl(0); qtreetbl_set_compare(t, counting_cmp); dead = 0; continue;
         }
         if (!strcmp(op, "dump")) { dump = atoi(a1); continue; }
         if (!strcmp(op, "settid")) { t->tid = (uint8_t)atoi(a1); continue; }   /* test set-up only: used right after "new" */
         if (dead) { printf("DEAD\n"); continue; }
-        if (QV_TRY(10)) {
+        if (QV_TRY(3)) {
             if (!strcmp(op, "put")) {
                 size_t nk = unhex(a1, b1), nv = unhex(a2, b2);
                 void *k = dupbuf(b1, nk), *v = nv ? dupbuf(b2, nv) : NULL;
